@@ -67,7 +67,8 @@ def gen(rng, tier):
             'k_max_frac': rng.choice([None, None, 0.6, 1.5]),
             'poles': rng.choice([None, [0], [0, 2], [0, 2, 4]]), 'dtype': rng.choice(['f4', 'f4', 'f8']),
             'T1': rng.choice([1, 2, 3, 5, 16]), 'T2': rng.choice([1, 2, 3, 5, 16]),
-            'sched': gen_sched(rng), 'compiled': rng.random() < 0.1, 'pos_dtype': rng.choice(['f4', 'f4', 'f8'])}
+            'sched': gen_sched(rng), 'compiled': rng.random() < 0.1, 'pos_dtype': rng.choice(['f4', 'f4', 'f8']),
+            'failed_call_before': rng.random() < 0.2}
 
 
 def _positions(case, which='pos', shift=None, dtype=np.float32):
@@ -200,6 +201,10 @@ def run(case):
     perm = np.array(case['perm'], dtype=np.int64)
     tol = 2e-5   # also for float64 fields: binning, positions and the window stay float32
     site = 'calc_power[sim]'
+    if case.get('failed_call_before'):
+        # history: a call that is rejected / dies midway (unknown mass-assignment scheme, another thread count) first
+        H.run(lambda: ps.calc_power(pos.copy(), case['L'], nmesh=case['nmesh'], paste='no-such-scheme',
+                                    nthread=max(1, 17 - case['T1'])), {'policy': 'static', 'strategy': 'serial'})
     steps = 0
     info = {}
 
